@@ -6,7 +6,9 @@
 
 namespace sim {
 
-static const int MAX_WATCHED = 4, MAX_MONS = 6, MAX_TRACERS = 3;
+#define MAX_WATCHED (globals().deep ? 6 : 4)
+#define MAX_MONS (globals().deep ? 10 : 6)
+static const int MAX_TRACERS = 3;
 
 static std::string squeeze(const std::string& s) {
   std::string r;
